@@ -429,6 +429,11 @@ def normalize_obligation(p, etags, enforce):
         # requires clause of a replaced callee, checked at a call site in fn
         md = re.search(r"contract::(\w+)|of (\w+) in", desc)
         return "%s.pre.%s" % (m.group(1), m.group(2))
+    m = re.match(r"^(.*)\.assertion\.(\d+)$", name)
+    if m and desc and not name.startswith("__CPROVER"):
+        # assertions of bounded harnesses are named by their text
+        slug = re.sub(r"[^A-Za-z0-9]+", "_", desc).strip("_")[:70]
+        return "%s.assert.%s" % (m.group(1), slug)
     m = re.match(r"^(.*)\.(\d+)$", name)
     if m:
         return m.group(1)
@@ -474,6 +479,12 @@ def run_static_fact(u, scratch, probes):
 
 
 def run_unit(u, scratch, probes, tier):
+    if tier == "thorough":
+        # deeper variant of a bounded unit: keys prefixed with "thorough-" override the quick ones
+        u = dict(u)
+        for k in list(u):
+            if k.startswith("thorough-") and k != "thorough-cfgs":
+                u[k[len("thorough-"):]] = u[k]
     if u.get("checker") == "nm_no_mutable_statics":
         return run_static_fact(u, scratch, probes)
     t0 = time.time()
